@@ -335,3 +335,76 @@ func VH_C09_unreliable_write_then_read_is_identity_or_refusal() {
 }
 
 func newDC(n int) *common.DeadlineChan[[]byte] { return common.NewDeadlineChan[[]byte](n) }
+
+// Creating tubes: a new tube's identifier is free in ITS OWN class's table (the
+// reliable and the unreliable identifier spaces are separate), so two tubes
+// opened one after the other never share (reliability, identifier), and the
+// new tube is registered under the identifier it carries.
+//
+//verif:prop C09
+//verif:bounds client or server muxer; reliable table and unreliable table each with the two lowest own-parity identifiers occupied or free (symbolic); then two consecutive creates of the same or of different classes
+//verif:cover reliable-then-reliable;unreliable-then-unreliable;mixed
+func VH_C09_created_tubes_get_distinct_ids_within_their_class() {
+	conn := &c09Conn{}
+	m := newMuxer(conn, 0, verifBool("server"), logrus.NewEntry(logrus.New()))
+	p := m.idParity
+	for i := 0; i < 2; i++ {
+		if verifBool("reliable-id-occupied") {
+			m.reliableTubes[p+byte(2*i)] = &Reliable{id: p + byte(2*i)}
+		}
+		if verifBool("unreliable-id-occupied") {
+			m.unreliableTubes[p+byte(2*i)] = &Unreliable{id: p + byte(2*i)}
+		}
+	}
+	relBefore, unrelBefore := len(m.reliableTubes), len(m.unreliableTubes)
+	firstRel, secondRel := verifBool("first-reliable"), verifBool("second-reliable")
+	create := func(rel bool) (byte, bool) {
+		if rel {
+			_, taken := m.reliableTubes[0]
+			_ = taken
+			t, err := m.CreateReliableTube(TubeType(1))
+			verifAssert(err == nil, "C09: a reliable tube can be created while identifiers are free")
+			if err != nil {
+				return 0, false
+			}
+			verifAssert(m.reliableTubes[t.id] == t, "C09: a new reliable tube is registered under the identifier it carries")
+			return t.id, true
+		}
+		t, err := m.CreateUnreliableTube(TubeType(1))
+		verifAssert(err == nil, "C09: an unreliable tube can be created while identifiers are free")
+		if err != nil {
+			return 0, false
+		}
+		verifAssert(m.unreliableTubes[t.id] == t, "C09: a new unreliable tube is registered under the identifier it carries")
+		return t.id, true
+	}
+	id1, ok1 := create(firstRel)
+	id2, ok2 := create(secondRel)
+	if !ok1 || !ok2 {
+		return
+	}
+	verifAssert(id1%2 == p && id2%2 == p, "C09: created tubes carry the muxer's own parity")
+	nRel, nUnrel := 0, 0
+	if firstRel {
+		nRel++
+	} else {
+		nUnrel++
+	}
+	if secondRel {
+		nRel++
+	} else {
+		nUnrel++
+	}
+	verifAssert(len(m.reliableTubes) == relBefore+nRel && len(m.unreliableTubes) == unrelBefore+nUnrel, "C09: every created tube occupies a fresh slot of its own class (no existing tube is replaced)")
+	if firstRel == secondRel {
+		verifAssert(id1 != id2, "C09: two tubes of the same class opened one after the other get distinct identifiers")
+	}
+	switch {
+	case firstRel && secondRel:
+		verifCover("reliable-then-reliable")
+	case !firstRel && !secondRel:
+		verifCover("unreliable-then-unreliable")
+	default:
+		verifCover("mixed")
+	}
+}
